@@ -157,13 +157,19 @@ func (cfg *Config) arithmValue(val string) (int, error) {
 	return Arithm(cfg, expr)
 }
 
-// arithmNumberLike reports whether s is empty or would be read by Bash
-// as a name or as a single integer constant with an optional sign,
-// as opposed to an expression with operators.
+// arithmNumberLike reports whether s is empty, a name, or would be read by
+// Bash as a single integer constant with an optional sign, as opposed to an
+// expression with operators, such as "-x" or " x ".
 func arithmNumberLike(s string) bool {
+	if syntax.ValidName(s) {
+		return true // an unset variable, or one we stopped following
+	}
 	s = strings.TrimSpace(s)
 	if s != "" && (s[0] == '+' || s[0] == '-') {
 		s = s[1:]
+	}
+	if s != "" && (s[0] < '0' || s[0] > '9') {
+		return false // e.g. a name with a sign or blanks around it
 	}
 	for i := range len(s) {
 		switch c := s[i]; {
